@@ -373,6 +373,54 @@ def run_profile_diff(prop, scenarios, tag="profiles"):
     return res
 
 
+def run_twin_diff(prop, pairs_of_scenarios, profiles=("debug",), tag="twins"):
+    """C11: the same operation lines on a nested shape and on its flattened twin (leaf ids are numbered in
+    declaration order in both, so the transcripts must be identical line by line, leaf arrays included)"""
+    os.makedirs(os.path.join(WORK, prop), exist_ok=True)
+    res = SuiteResult()
+    nested = [a for a, b in pairs_of_scenarios]
+    flat = [b for a, b in pairs_of_scenarios]
+    pn = os.path.join(WORK, prop, f"{tag}-nested.scn"); pf = os.path.join(WORK, prop, f"{tag}-flat.scn")
+    write_scenarios(pn, nested); write_scenarios(pf, flat)
+    for prof in profiles:
+        tn, tf = run_harness(prof, pn), run_harness(prof, pf)
+        mn = run_model(pn, prof)
+        for k, (a, b) in enumerate(pairs_of_scenarios):
+            res.evaluations += 2
+            res.steps += len(tn[k])
+            kinds = kinds_of(a.shape)
+            for x, y in zip(tn[k], tf[k]):
+                if x.startswith("I ") and x != y:
+                    step = x.split()[1]
+                    res.failures.append(Failure(a, prof, step, f"nested {a.shape}: {x[:220]} | flattened {b.shape}: {y[:220]}", f"C11:{op_of(a, step)}:twin", {"nested": x, "flat": y}))
+                    break
+                if x.startswith("I ") and "regs=" in x:
+                    o = parse_obs(x)
+                    if o.get("regs", "~") != "~" and not lockstep_ok(parse_regs(o["regs"])):
+                        res.failures.append(Failure(a, prof, o["step"], f"a leaf array of a nested container has another length: {o['regs']}", f"C11:{op_of(a, o['step'])}:lockstep", {"nested": x}))
+                        break
+            ok = True
+            for x, y in zip(tn[k], mn[k]):
+                if x != y:
+                    (res.tie_mismatch if x.startswith("I ") else res.std_mismatch).append((a, prof, x, y) if x.startswith("I ") else (a, x, y))
+                    ok = False
+                    break
+            if ok: res.traces_validated += 1
+            res.hist_shapes[a.shape] += 1
+            for l in a.lines: res.hist_ops[l.split()[0]] += 1
+            if len(a.lines) > 1: res.distinct.add(a.key())
+            if len(res.samples) < 3 and k % max(1, len(pairs_of_scenarios) // 3) == 0:
+                res.samples.append({"nested": a.shape, "flat": b.shape, "ops": a.lines[:8], "nested_obs": tn[k][2][:160] if len(tn[k]) > 2 else ""})
+    return res
+
+
+def still_twin_differs(prop, sc):
+    twin = dict([("NFirst", "NFirstF"), ("NMid", "NMidF"), ("NLast", "NLastF"), ("Deep", "DeepF")]).get(sc.shape)
+    if twin is None: return None
+    r = run_twin_diff(prop, [(sc, Scenario(twin, sc.lines, sc.tag))], tag="min")
+    return r.failures[0] if r.failures else None
+
+
 def mon_c17(sc, prof, pairs):
     return []
 
@@ -396,6 +444,8 @@ def still_differs(prop, sc):
 def still_fails(prop, sc, prof, monitors, key):
     if key.startswith("C17:"):
         return still_differs(prop, sc)
+    if key.startswith("C11:"):
+        return still_twin_differs(prop, sc)
     path = os.path.join(WORK, prop, "min.scn")
     write_scenarios(path, [sc])
     try:
